@@ -20,11 +20,12 @@ _OUTSIDE = st.sampled_from([-1e-9, 1 + 1e-9, -0.5, 1.5, -1e-300, 1.0000000000000
 @st.composite
 def _cases(draw):
     n, m = draw(st.integers(0, 8)), draw(st.integers(0, 8))
-    dtype = draw(st.sampled_from(["float", "float", "float", "int", "uint8", "bool", "float32", "float32r", "float16"]))
+    dtype = draw(st.sampled_from(["float", "float", "float", "int", "uint8", "bool", "float32", "float32r", "float16",
+                                  "longdouble"]))
     if dtype in ("int", "uint8", "bool"):
         g = draw(st.lists(st.integers(0, 1), min_size=n, max_size=n))
         f = draw(st.lists(st.integers(0, 1), min_size=m, max_size=m))
-    elif dtype in ("float32", "float16"):
+    elif dtype in ("float32", "float16", "longdouble"):
         g = [k / 64 for k in draw(st.lists(st.integers(0, 64), min_size=n, max_size=n))]
         f = [k / 64 for k in draw(st.lists(st.integers(0, 64), min_size=m, max_size=m))]
     elif dtype == "float32r":
@@ -63,7 +64,12 @@ def _cases(draw):
                 nan_at = others[draw(st.integers(0, len(others) - 1))]
     thr = draw(gen.shaped_thresholds([float(x) for x in g + f], shapes=[(), (3,), (2, 2), (0,)], mag=2.0))
     targets = draw(st.lists(gen.target_values([max(n, 1), max(m, 1), max(n + m, 1)]), min_size=1, max_size=4))
-    return dict(g=g, f=f, dtype=dtype, nan_at=nan_at, eg=draw(st.sampled_from([0, 0, 3, 40])),
+    ld_bad = None
+    if dtype == "longdouble" and bad_at is not None and draw(st.booleans()):
+        # outside [0,1] by less than double precision can express: the neighbour of 1 in extended precision,
+        # a negative number below the double subnormals; the value at bad_at is replaced by it in check()
+        ld_bad = draw(st.sampled_from(["above-one", "below-zero"]))
+    return dict(g=g, f=f, dtype=dtype, ld_bad=ld_bad, bad_at=bad_at, nan_at=nan_at, eg=draw(st.sampled_from([0, 0, 3, 40])),
                 ef=draw(st.sampled_from([0, 0, 2, 25])), sc=draw(st.sampled_from(["genuine", "fraud"])),
                 sc_enum=draw(st.booleans()), thr=thr, targets=targets, order=draw(st.integers(0, 10**6)))
 
@@ -79,9 +85,18 @@ def check(case):
 
     warnings.simplefilter("ignore")
     dt = {"int": int, "uint8": np.uint8, "bool": bool, "float32": np.float32, "float32r": np.float32,
-          "float16": np.float16}.get(case["dtype"], float)
+          "float16": np.float16, "longdouble": np.longdouble}.get(case["dtype"], float)
     g, f = np.asarray(case["g"], dtype=dt), np.asarray(case["f"], dtype=dt)
     outside = any((x < 0) or (x > 1) for x in case["g"] + case["f"])
+    if case.get("ld_bad") and np.finfo(np.longdouble).nmant > 52:
+        v = np.nextafter(np.longdouble(1), np.longdouble(2)) if case["ld_bad"] == "above-one" \
+            else -(np.longdouble(2) ** -1100)
+        k = case["bad_at"]
+        if k < len(g):
+            g[k] = v
+        else:
+            f[k - len(g)] = v
+        case = dict(case, g=[str(x) for x in g], f=[str(x) for x in f])  # for the messages only
     if case.get("nan_at") is not None:
         k = case["nan_at"]
         if k < len(g):
@@ -171,6 +186,15 @@ def check(case):
                                      nb_easy_genuines=case["eg"], nb_easy_frauds=case["ef"])
         require(isinstance(fl, FraudScores) and fl == fs, "fraud:from-labels",
                 f"{ctx}: labels {gl!r}/{fl_!r} with genuine_label={gl!r}")
+    # labels and scores handed over as a column, a row or a grid (a boolean mask selects from any shape)
+    if n + m_:
+        lab = np.asarray([5] * n + [2] * m_)
+        shapes = [(n + m_, 1), (1, n + m_)] + ([(2, (n + m_) // 2)] if (n + m_) % 2 == 0 else [])
+        for shp in shapes:
+            fl = FraudScores.from_labels(lab[perm].reshape(shp), sco[perm].reshape(shp), genuine_label=5,
+                                         score_class=sc_arg, nb_easy_genuines=case["eg"], nb_easy_frauds=case["ef"])
+            require(isinstance(fl, FraudScores) and fl == fs, "fraud:from-labels",
+                    f"{ctx}: labels and scores of shape {shp}")
     # the library's own label type as labels (object array and plain list)
     if n + m_:
         lab = np.asarray([DocLabel.pos] * n + [DocLabel.neg] * m_, dtype=object)
